@@ -199,6 +199,14 @@ pub fn sweep(space: &Space, mode: Mode, max_len: usize) -> Tally {
                                         _ => Some(format!("the original pattern /{}/ gives {}", pattern, a.short())),
                                     };
                                     if let Some(p) = problem {
+                                        // class F1 (an unbounded repeat whose body can match the empty string): the
+                                        // inserted groups move the boundary between the VM and the automata engine,
+                                        // whose empty-iteration rules differ - the known finding KF-F1, attributed as
+                                        // narrowly as in the reference sweeps (one side leaves such a loop to a delegate)
+                                        if facts.f1 && (!engine::vm_owns_loops(&narrow) || !engine::vm_owns_loops(&wide)) {
+                                            t.known(crate::kf::KF_F1, || jobj! {"pattern" => wp.as_str(), "variant" => pattern.as_str(), "text" => text.as_str(), "pos" => pos, "observed" => b.short()});
+                                            continue;
+                                        }
                                         t.violation(
                                             wp.len() * 8 + text.len(),
                                             jobj! {"kind" => "wide", "pattern" => wp.as_str(), "variant" => pattern.as_str(), "text" => text.as_str(), "pos" => pos, "observed" => b.short(),
